@@ -161,9 +161,13 @@ func enumerate(th bool, emit func(*unit)) map[string]any {
 				}
 			}
 		}
-		note("pm", "phrases of length 1..3 over {a,B,c} (%d); every ordered list of 1-2 phrases%s = %d lists, each as @pm / @pmFromFile (with comment and blank line) / @pmFromDataset x every input of length 0..%d over {a,A,b,B,c,x} (%d) x capture off/on",
+		note("pm", "phrases of length 1..3 over {a,B,c} (%d); every ordered list of 1-2 phrases%s = %d lists, each as @pm / @pmFromFile (with comment and blank line) / @pmFromDataset (+ single phrases as @pmf) x every input of length 0..%d over {a,A,b,B,c,x} (%d) x capture off/on",
 			len(phr), map[bool]string{true: " and every 3-subset", false: ""}[th], id, inL, len(inputs))
 
+		// the @pmf alias of @pmFromFile
+		for i, p := range phr {
+			emit(&unit{caps: both, inputs: inputs, cases: []Case{{Mode: "direct", Op: "pmf", Arg: Q(fmt.Sprintf("c15-pmf-%d.data", i)), File: qp(p + "\n#" + phr[0] + "\n")}}})
+		}
 		// non-ASCII phrases
 		nu := []string{"a", "\u00c9", "\xff", "\u212a"}
 		nph := words(nu, 1, 2)
